@@ -209,6 +209,53 @@ def stdRank (m : Name) : Nat :=
   ["thechapter", "thesection", "thesubsection", "thesubsubsection", "theparagraph", "thesubparagraph",
    "thesubsubparagraph"].idxOf m
 
+/-! ## executable oracle for `\the…` formats (used by the `fmt` stream and the failing-input search) -/
+
+/-- the standard representation of a counter value in its range (`none` outside the ranges the property names) -/
+def stdRepresent (v : Int) (fmt : String) : Option String :=
+  let n := v.toNat
+  match fmt with
+  | "arabic" => some (toString v)
+  | "Roman" => if 1 ≤ v ∧ v < 5000 then some (roman n) else none
+  | "roman" => if 1 ≤ v ∧ v < 5000 then some (romanLower n) else none
+  | "Alph" => if 1 ≤ v ∧ v ≤ 26 then some (alphUpper n) else none
+  | "alph" => if 1 ≤ v ∧ v ≤ 26 then some (alphLower n) else none
+  | _ => none
+
+/-- how many `0.` groups a text starts with -/
+def zeroGroups : List Char → Nat
+  | '0' :: '.' :: r => zeroGroups r + 1
+  | _ => 0
+
+/-- `trimLeft`, stated independently of the code's loop: *only a prefix* is removed - the leading `0.` groups
+    (what book/report use to print figure `3` instead of `0.3` before the first chapter); a `0.` further to the right,
+    as in `10.1`, is part of the number -/
+def stripZeroGroups (t : String) : String := String.ofList (t.toList.drop (2 * zeroGroups t.toList))
+
+/-- nested substitution as a function: literal text, standard representations, `${the…}` by recursion with the
+    referenced macro's own `trimLeft`; `none` = outside the domain (undefined macro, value outside the range of its
+    representation, cyclic table) -/
+def substEval : Nat → TheEnv → Store → Name → Option String
+  | 0, _, _, _ => none
+  | f + 1, env, s, self =>
+    match env.lookup self with
+    | none => none
+    | some d =>
+      (d.pieces.mapM fun (p : Piece) =>
+        match p with
+        | Piece.lit t => some t
+        | Piece.ref n fm =>
+          if isMacroRef self n then substEval f env s n else stdRepresent (valD s n) (fm.getD "arabic")).map fun parts =>
+        let t := String.join parts
+        if d.trimLeft then stripZeroGroups t else t
+
+/-- decidable hypothesis on a `\the…` table: figures and tables are printed `\thechapter.\arabic{…}` with `trimLeft`,
+    and `\thechapter` is the arabic chapter number (the book / report / article tables before `\appendix`) -/
+def floatFormatsB (thes : TheEnv) : Bool :=
+  thes.lookup "thefigure" == some { pieces := [.ref "thechapter" none, .lit ".", .ref "figure" none], trimLeft := true } &&
+  thes.lookup "thetable" == some { pieces := [.ref "thechapter" none, .lit ".", .ref "table" none], trimLeft := true } &&
+  thes.lookup "thechapter" == some { pieces := [.ref "chapter" none], trimLeft := false }
+
 /-! ## LaTeX-side oracle -/
 
 inductive Cls where | book | article
